@@ -55,6 +55,9 @@ pub enum MsgToServer {
         text: String,
         version: i32,
     },
+    DidClose {
+        url: Url,
+    },
     DidChangeConfiguration(ServerConfigItem),
     WillRenameFile {
         old_url: Url,
@@ -196,6 +199,7 @@ impl Server {
                         self.did_change(&url, &text, version);
                         self.latest_change = Some((url, text, version));
                     }
+                    MsgToServer::DidClose { url } => self.did_close(&url),
                     MsgToServer::DidChangeConfiguration(x) => self.config.set(x),
                     MsgToServer::WillRenameFile { old_url } => self.on_remove(old_url),
                     MsgToServer::DidRenameFile { new_url } => self.did_rename_files(new_url),
@@ -370,6 +374,41 @@ impl Server {
             self.on_change(&metadata.project.name, url, text, version);
         } else {
             self.on_change("", url, text, version);
+        }
+    }
+
+    fn did_close(&mut self, url: &Url) {
+        let Some(path) = url.to_file_path() else {
+            return;
+        };
+
+        // The buffer is gone, so the file on disk is the truth again. Forget
+        // the buffer; otherwise `background_analyze` keeps skipping the file
+        // and the closed buffer shadows the disk content forever.
+        if self.document_map.remove(path.as_ref()).is_none() {
+            return;
+        }
+        self.parser_map.remove(path.as_ref());
+        if self
+            .latest_change
+            .as_ref()
+            .is_some_and(|(latest, _, _)| latest == url)
+        {
+            // Would re-register the closed buffer after the background pass.
+            self.latest_change = None;
+        }
+
+        // Replace what the buffer registered by what the file on disk
+        // declares (nothing, if the file no longer exists).
+        if let Some(path_id) = resource_table::get_path_id(path.to_path_buf()) {
+            Analyzer::drop_file(path_id, None);
+        }
+        if let Some(mut metadata) = self.get_metadata(url)
+            && let Ok(paths) = metadata.paths::<&str>(&[], true, true)
+            && let Some(path_set) = paths.iter().find(|x| x.src == path.as_ref())
+        {
+            self.background_analyze(path_set, &metadata);
+            Analyzer::analyze_post_pass1();
         }
     }
 
